@@ -431,10 +431,15 @@ def run(ctx):
     rels = [x for x in cjt.events('call') if is_release(x)]
     from rules import origins
     from model import vars_in
+    # (over GetActiveEdges(), or directly over the map GetActiveEdges() enumerates)
     ok = bool(rels) and all(
-        any('GetActiveEdges' in dstr(o) for v in vars_in(x['args'][0])
-            for o in origins(cjt, {'k': 'var', 'n': v, 'vk': 'local'}))
+        any('GetActiveEdges' in dstr(o) or 'RealCommandRunner::subproc_to_edge_' in dstr(o) for v in vars_in(x['args'][0])
+            for o in origins(cjt, {'k': 'var', 'n': v, 'vk': 'local'})) or
+        'RealCommandRunner::subproc_to_edge_' in dstr(deep_resolve(cjt, deep_resolve(cjt, x['args'][0])))
         for x in rels)
+    if not ok and rels:
+        full_ = [l_ for l_ in loops_over(cjt, 'RealCommandRunner::subproc_to_edge_') if l_['full']]
+        ok = bool(full_) and all(any(mentions_var(deep_resolve(cjt, deep_resolve(cjt, x['args'][0])), l_['var']) for l_ in full_) for x in rels)
     ctx.check('C06.R2', ok, cjt.name, 'ClearJobTokens:not-over-active-edges', cjt.loc,
               'ClearJobTokens releases the slot of every element of GetActiveEdges()')
     ab = prog.fn('RealCommandRunner::Abort')
